@@ -10,7 +10,7 @@ FN = {"CleanUp": "c", "Get": "g", "Return": "r", "Close": "s"}
 # synchronisation points the model was written for: (function, kind) -> how many
 EXPECT = {
     ("c", "lock"): 1, ("c", "iter"): 1, ("c", "close"): 1, ("c", "drain"): 1, ("c", "go"): 1,
-    ("g", "lock"): 1, ("g", "close"): 1, ("g", "drain"): 1, ("g", "sel"): 1, ("g", "go"): 2,
+    ("g", "lock"): 1, ("g", "close"): 1, ("g", "drain"): 1, ("g", "sel"): 1, ("g", "go"): 3,
     ("r", "lock"): 1, ("r", "iter"): 1, ("r", "close"): 1, ("r", "drain"): 1, ("r", "sel"): 1, ("r", "go"): 1,
     ("s", "stop"): 1, ("s", "lock"): 1, ("s", "iter"): 1, ("s", "close"): 1, ("s", "drain"): 1,
 }
